@@ -234,10 +234,10 @@ contract(IRFS + "._infer_inverse_3tuple_features", params={"an_instance": Name},
 # ---- which triples reach the counting steps (C14: only nodes are counted as incoming links; C10/C01: exactly the tracked nodes) -----------
 REL = "result == ((has_class(an_instance, 'IRI') or has_class(an_instance, 'BNode')) and %s in {0})" % ELEM_KEY.format("an_instance")
 contract(AFDS + "._is_relevant_instance", params={"an_instance": ANode}, returns=Bool, self_type=Strat,
-    ensures=[REL.format(ID)], raises=[], modifies=[], props=["C14", "C10", "C01"],
+    ensures=[REL.format(ID)], raises=[], modifies=[], props=["C14", "C10", "C01", "C03"],
     note="a term is counted only if it is an IRI or blank node present in the instance dictionary: a literal is never an instance, whatever its text")
 contract(IRFS + "._is_relevant_instance", params={"an_instance": ANode}, returns=Bool, self_type=Strat2,
-    ensures=[REL.format(ID2)], raises=[], modifies=[], props=["C14"],
+    ensures=[REL.format(ID2)], raises=[], modifies=[], props=["C14", "C03"],
     note="the inherited test verified against the inverse strategy's dictionary: a literal object is never counted as an incoming link")
 contract(DFS + ".is_a_relevant_triple", params={"a_triple": Triple}, returns=Bool, self_type=Strat,
     ensures=["result == (%s and %s in %s)" % (SUBJ_NODE, SK, ID)], raises=[], modifies=[], props=["C01", "C10"],
